@@ -189,6 +189,10 @@ var c07Corpus = []string{
 	"x := a like \"b\" and c hasprefix \"d\" or 1 in [1] and 2 notin [3]",
 }
 
+// c07BadLexemes: unclosed string, unclosed block comment, malformed identifier,
+// bad escape sequence, lone quote, invalid UTF-8, malformed number.
+var c07BadLexemes = []string{"\"abc", "/* c", "b@d", "\"\\x\"", "'", "\x80", "1a"}
+
 func c07Mutations(c *Ctx, double bool) {
 	for _, prog := range c07Corpus {
 		toks := parser.LexToList("v", prog)
@@ -223,6 +227,17 @@ func c07Mutations(c *Ctx, double bool) {
 					q = append(append(append([]string{}, p[:i]...), ins), p[i:]...) // stray terminator
 					f(q)
 				}
+				// a lexically invalid token in front of / instead of token i: the
+				// lexer reports an error in the middle of whatever the parser is doing
+				for _, ins := range c07BadLexemes {
+					q = append(append(append([]string{}, p[:i]...), ins), p[i:]...)
+					f(q)
+					q = append(append(append([]string{}, p[:i]...), ins), p[i+1:]...)
+					f(q)
+				}
+			}
+			for _, ins := range c07BadLexemes {
+				f(append(append([]string{}, p...), ins))
 			}
 		}
 		mut(parts, func(q []string) {
@@ -311,7 +326,7 @@ func init() {
 			c.Sample("func a ( ) { ) ; 1 }")
 		}})
 	register(&Part{Prop: "C07", Name: "mutations", Quick: 8, Thor: 16, Replay: replay,
-		Desc: "all single (thorough: and double) token deletions, duplications, adjacent swaps and stray bracket/terminator insertions of a 15-program corpus covering every statement kind",
+		Desc: "all single (thorough: and double) token deletions, duplications, adjacent swaps, stray bracket/terminator insertions and insertions / substitutions of 7 lexically invalid tokens (unclosed string, unclosed comment, malformed identifier, bad escape, lone quote, invalid UTF-8, malformed number) at every position of a 15-program corpus covering every statement kind",
 		Rule: "all mutations enumerated; non-trivial = the mutant still parses",
 		Run: func(c *Ctx) {
 			c07Mutations(c, c.Thorough())
